@@ -189,10 +189,11 @@ type humanStats struct {
 }
 
 func humanCheckSorted(vals []uint64, binary bool, st *humanStats) {
-	h := counts.Metric
+	// the package-level formatters themselves (not copies): concurrent callers share whatever state they have
+	h := &counts.Metric
 	hn := "metric"
 	if binary {
-		h = counts.Binary
+		h = &counts.Binary
 		hn = "binary"
 	}
 	var prev *rendered
